@@ -709,11 +709,16 @@ func (c *fctx) forStmt() []*S {
 					after = ys[0]
 				}
 			}
-			sw := &S{K: SSwitch, ID: c.g.id(), E: bin(v(ctr), "%", lit(2)), Cases: []*Case{
+			mod := 2 + r.Intn(2)
+			sw := &S{K: SSwitch, ID: c.g.id(), E: bin(v(ctr), "%", lit(mod)), Cases: []*Case{
 				{Vals: []*X{lit(0)}, Body: []*S{{K: SYield, ID: c.g.id(), E: bin(v(ctr), "+", lit(r.Range(10, 20)))},
 					{K: SIf, ID: c.g.id(), E: bin(v(ctr), "<", lit(r.Range(0, 3))), Body: []*S{{K: SBreak, ID: c.g.id()}}}, after}},
 				{Default: true, Body: []*S{{K: SYield, ID: c.g.id(), E: bin(v(ctr), "+", lit(r.Range(20, 30)))}, {K: SBreak, ID: c.g.id()}}},
 			}}
+			if mod == 3 {
+				// a continue of the LOOP from inside the same switch: the rest of the iteration is skipped
+				sw.Cases = append(sw.Cases[:1:1], &Case{Vals: []*X{lit(2)}, Body: []*S{{K: SContinue, ID: c.g.id()}}}, sw.Cases[1])
+			}
 			loop.Body = append([]*S{sw}, loop.Body...)
 			c.g.mark("loop_body_starts_with_a_switch_left_by_break_after_a_yield")
 		} else if c.gen && !c.inLit && r.Chance(1, 5) {
@@ -1198,7 +1203,7 @@ func baseCfg(profile string) Cfg {
 		c.PlainPct = 50
 	case "bystander":
 		c.W[SFuncLit], c.W[SExpr], c.W[SDecl], c.W[SAssign], c.W[SRange] = 9, 6, 9, 9, 5
-		c.Closures, c.GenLits, c.Ranges = true, true, true
+		c.Closures, c.GenLits, c.Ranges, c.Consume = true, true, true, true
 		c.PlainPct = 60
 	case "all":
 		c.W[SFuncLit], c.W[SYieldFrom], c.W[SExpr], c.W[SRange] = 5, 5, 3, 5
